@@ -3440,6 +3440,15 @@ class BSP:
                 spr_scale = 1.0
                 shape_ang = 0
                 shape_size = 1
+            elif isinstance(prop, DetailPropShape):  # Subclass of DetailPropSprite, must be checked first.
+                mdl_ind = add_sprite(
+                    prop.dims_upper_left + prop.dims_lower_right +
+                    prop.texcoord_upper_left + prop.texcoord_lower_right
+                )
+                detail_type = 3 if prop.is_cross else 2
+                spr_scale = prop.sprite_scale
+                shape_ang = prop.shape_angle
+                shape_size = prop.shape_size
             elif isinstance(prop, DetailPropSprite):
                 mdl_ind = add_sprite(
                     prop.dims_upper_left + prop.dims_lower_right +
@@ -3449,15 +3458,6 @@ class BSP:
                 spr_scale = prop.sprite_scale
                 shape_ang = 0
                 shape_size = 1
-            elif isinstance(prop, DetailPropShape):
-                mdl_ind = add_sprite(
-                    prop.dims_upper_left + prop.dims_lower_right +
-                    prop.texcoord_upper_left + prop.texcoord_lower_right
-                )
-                detail_type = 3 if prop.is_cross else 2
-                spr_scale = prop.sprite_scale
-                shape_ang = prop.shape_angle
-                shape_size = prop.shape_size
             else:
                 raise TypeError(f'Unknown detail prop type {prop}!')
 
